@@ -138,6 +138,11 @@ def check_trotter(ctx):
     loops.sort(key=lambda l: l.lineno)
     ok_nest = len(loops) == 2 and norm(loops[0].iter) == "range(n_steps)" and norm(loops[1].iter) == "hamiltonian.terms" and count_reversals(loops[1].iter) == 0
     ctx.check(ok_nest, R2, fi.key + ":loops", "for step in range(n_steps): for term in hamiltonian.terms", f"loop nest is {[short(l.iter) for l in loops]}: not steps (outer) over the Hamiltonian's terms in listed order (inner)", where)
+    # the Hamiltonian whose terms are listed is the caller's, as given: a re-bound parameter (simplified, sorted, filtered ...)
+    # has other terms, or the same terms in another order, than the operator the property speaks about
+    p0 = positional_params(fi.node)[0]
+    rebinds = [s for s in d.assign_stmts.get(p0, [])]
+    ctx.check(not rebinds, R2, fi.key + ":operator-as-given", "the Hamiltonian parameter is never re-bound before its terms are listed", f"`{p0}` is re-bound ({short(rebinds[0]) if rebinds else ''}) before the Trotter loop lists its terms: the circuit is then the ordered product of the terms of a *different* listing (like terms merged, re-ordered or dropped), so it is no longer the per-term circuits of the given operator in listed order, and time_evolution_derivatives -- which walks the operator as given -- differentiates another circuit", f"{fi.module.relpath}:{rebinds[0].lineno}" if rebinds else where)
     targ = arg_or_kw(call, 1, "time")
     want = p_mul(p_atom("time"), p_inv(p_atom("n_steps")))
     got = poly(targ, _resolver(d)) if targ is not None else None
@@ -344,6 +349,22 @@ def check_derivatives(ctx):
     inner = [l for l in body_walk(fi.node) if isinstance(l, ast.For) and any(x is c for x in ast.walk(l))]
     inner.sort(key=lambda l: -l.lineno)
     ok_t = bool(inner) and isinstance(inner[0].target, ast.Tuple) and len(inner[0].target.elts) == 2 and norm(inner[0].target.elts[1]) == norm(t0) and norm(inner[0].target.elts[0]) == "j" and norm(inner[0].iter) == "enumerate(terms)"
+    # the two indices compared in `i == j` count positions in the same listing
+    encl = [l for l in body_walk(fi.node) if isinstance(l, ast.For) and any(x is c for x in ast.walk(l)) and isinstance(l.target, ast.Tuple) and len(l.target.elts) == 2]
+    if isinstance(targ, ast.IfExp) and isinstance(targ.test, ast.Compare):
+        idxn = {norm(targ.test.left), norm(targ.test.comparators[0])}
+        srcs = {}
+        for l in encl:
+            nm = norm(l.target.elts[0])
+            if nm in idxn and isinstance(l.iter, ast.Call) and dotted(l.iter.func) == "enumerate" and l.iter.args:
+                a0 = l.iter.args[0]
+                if isinstance(a0, ast.Name) and isinstance(d.single_def(a0.id), ast.AST):
+                    a0 = d.single_def(a0.id)
+                srcs[nm] = norm(a0)
+        if len(srcs) == 2:
+            ctx.check(len(set(srcs.values())) == 1, R4, fi.key + ":same-listing", "both compared positions enumerate the same listing of terms", f"the positions compared in `{short(targ.test)}` enumerate different listings ({', '.join(f'{k} over {v}' for k, v in sorted(srcs.items()))}): position i of one is not position i of the other, so the shift lands on the wrong term's step and its factor is paired with another term's circuit", where)
+        else:
+            ctx.undecided(R4, fi.key + ":same-listing", f"cannot find the two enumerations providing {sorted(idxn)}", where)
     ctx.check(ok_t, R4, fi.key + ":all-terms-in-order", "every term of the Hamiltonian, in order, in each derivative circuit", "a derivative circuit does not contain every term of the Hamiltonian in listed order", where)
     # r, shift, output factor
     want_r = p_mul(p_atom("term_1.coefficient.real"), p_inv(p_atom("n_steps")))
